@@ -2111,6 +2111,578 @@ Proof.
 Qed.
 
 
+(** * Pending writes: the overlay of an update transaction *)
+
+(** the selection argument of [txn_scan_fwd], for any sorted stream that represents the snapshot *)
+Definition chosen_view (now : N) (ws pw : list rec) (readTs : N) (so : sopts) : list rec :=
+  flat_map (fun u => match view ws pw readTs (sbase u) with
+                     | Some x => if live now x && ver_ok so (r_ver x) then [x] else []
+                     | None => []
+                     end) (filter (key_ok so) (ukeys ws pw)).
+
+Lemma spec_scan_chosen_view now ws pw readTs so :
+  so_rev so = false -> so_all so = false ->
+  spec_scan now ws pw readTs so = map (fun x => to_item (snd (split_base (r_key x))) x) (chosen_view now ws pw readTs so).
+Proof.
+  intros Hr Ha. unfold spec_scan, chosen_view. rewrite Hr.
+  induction (filter (key_ok so) (ukeys ws pw)) as [|u ks IH]; cbn [flat_map map]; [reflexivity|].
+  rewrite map_app, <- IH. f_equal. unfold key_items. rewrite Ha.
+  destruct (view ws pw readTs (sbase u)) as [x|] eqn:E; [|reflexivity].
+  destruct (live now x && ver_ok so (r_ver x)); [|reflexivity]. cbn [map].
+  destruct (view_key _ _ _ _ _ E) as [Hk _]. rewrite Hk. unfold sbase. rewrite split_base_enc0. reflexivity.
+Qed.
+
+Lemma pick_chosen_view now ws pw readTs o T :
+  o_rev o = false ->
+  sorted T -> Forall (fun x => wf_key x = true) T -> Forall (fun x => r_ver x <= readTs) T ->
+  (forall bk, view ws pw readTs bk = src_search bk readTs T) ->
+  (forall x, In x T -> In x (ws ++ pw)) ->
+  pick (good now o) None T = chosen_view now ws pw readTs (sopts_of o None).
+Proof.
+  intros Hr HsT HwT HvT Hview Hsub. rewrite Forall_forall in HwT, HvT.
+  apply sorted_ext.
+  - now apply pick_sorted.
+  - unfold chosen_view. apply flat_map_keys_sorted.
+    + apply ssorted_filter, key_set_sorted.
+    + intros u x Hx. destruct (view ws pw readTs (sbase u)) as [z|] eqn:E; [|contradiction].
+      destruct (live now z && ver_ok (sopts_of o None) (r_ver z)); [|contradiction]. destruct Hx as [<-|[]].
+      now destruct (view_key _ _ _ _ _ E).
+    + intro u. destruct (view ws pw readTs (sbase u)) as [z|]; [|cbn; lia].
+      destruct (live now z && ver_ok (sopts_of o None) (r_ver z)); cbn; lia.
+  - intro x. rewrite (pick_in (good now o) T None x HsT). unfold chosen_view. rewrite in_flat_map. split.
+    + intros (Hin & Hg & _ & Hmax).
+      pose proof (HwT x Hin) as Hwx. destruct (wf_key_enc x Hwx) as (cf & u & Hsp & Hk & _ & _).
+      unfold good in Hg. apply andb_true_iff in Hg as [Hg Hlive]. apply andb_true_iff in Hg as [Hkf Hsi].
+      assert (cf = 0) as ->.
+      { unfold keyfilt in Hkf. rewrite Hsp in Hkf. destruct (cf =? cf_default) eqn:E; [now apply N.eqb_eq in E | discriminate]. }
+      exists u. split.
+      * apply filter_In. split; [apply ukeys_in_gen; exists x; split; [now apply Hsub|] | now rewrite <- (key_ok_filt o x u Hk Hr)].
+        unfold default_ukey. unfold split_base in Hsp. destruct (decode_key_cf (r_key x)) as [[c' u'] ok] eqn:Ed.
+        injection Hsp as -> ->. unfold wf_key in Hwx. rewrite Ed in Hwx. apply andb_true_iff in Hwx as [-> _]. reflexivity.
+      * assert (El : view ws pw readTs (sbase u) = Some x).
+        { rewrite Hview. apply src_search_char; [exact HsT|]. split; [exact Hin|]. split; [split; [exact Hk | now apply HvT]|].
+          intros y Hy [Hyk _]. apply Hmax; [exact Hy | rewrite Hyk, Hk; reflexivity]. }
+        rewrite El, live_dead, Hlive, (ver_since o None x), Hsi. now left.
+    + intros (u & Hu & Hx). apply filter_In in Hu as [_ Hko].
+      destruct (view ws pw readTs (sbase u)) as [z|] eqn:E; [|contradiction].
+      destruct (live now z && ver_ok (sopts_of o None) (r_ver z)) eqn:Elv; [|contradiction]. destruct Hx as [<-|[]].
+      apply andb_true_iff in Elv as [Hlive Hvo].
+      rewrite Hview in E. apply (src_search_char _ _ _ _ HsT) in E as (Hin & [Hk Hv] & Hmax).
+      split; [exact Hin|]. split.
+      * unfold good. rewrite (key_ok_filt o z u Hk Hr), Hko, <- (ver_since o None z), Hvo, <- live_dead, Hlive. reflexivity.
+      * split; [reflexivity|]. intros y Hy Hyk. apply Hmax; [exact Hy|]. split; [congruence | now apply HvT].
+Qed.
+
+(** sorting the pending writes (CompareKeys order since the repair) *)
+Definition pleb (a b : rec) : bool := match rcmp a b with Gt => false | _ => true end.
+
+Lemma pend_sorted_eq pw : pend_sorted current false pw = isort pleb pw.
+Proof.
+  unfold pend_sorted. f_equal.
+Qed.
+
+Lemma ins_sorted x l : sorted l -> (forall y, In y l -> rcmp x y <> Eq) -> sorted (ins pleb x l).
+Proof.
+  induction l as [|y l IH]; intros Hs Hne; cbn [ins]; [repeat constructor|].
+  pose proof (sorted_cons_inv _ _ Hs) as [Hsl Hf]. unfold pleb at 1. destruct (rcmp x y) eqn:E.
+  - exfalso. now apply (Hne y (or_introl eq_refl)).
+  - constructor; [exact Hs|]. constructor; [exact E|]. eapply Forall_impl; [|exact Hf]. intros a Ha. eapply rlt_trans; eauto.
+  - constructor; [apply IH; [exact Hsl | intros z Hz; apply Hne; now right]|].
+    apply Forall_forall. intros z Hz. apply ins_in in Hz as [->|Hz]; [now apply rcmp_gt_rlt|].
+    rewrite Forall_forall in Hf. auto.
+Qed.
+
+Lemma isort_sorted pw : NoDup (map r_key pw) -> sorted (isort pleb pw).
+Proof.
+  induction pw as [|x pw IH]; intro Hn; [constructor|]. rewrite isort_cons'. cbn [map] in Hn. inversion Hn as [|? ? Hx Hn']; subst.
+  apply ins_sorted; [now apply IH|]. intros y Hy E. apply isort_in in Hy. apply rcmp_eq in E as [Ek _].
+  apply Hx. rewrite Ek. now apply in_map.
+Qed.
+
+(** the merged stream with the pending source in front *)
+Lemma pending_find pw bk p : NoDup (map r_key pw) -> In p pw -> r_key p = bk -> pending_of pw bk = Some p.
+Proof.
+  unfold pending_of. induction pw as [|q pw IH]; intros Hn Hp Hk; [contradiction|]. cbn [find].
+  cbn [map] in Hn. inversion Hn as [|? ? Hq Hn']; subst. destruct (bytes_eqb (r_key q) (r_key p)) eqn:E.
+  - apply bytes_eqb_eq in E. destruct Hp as [->|Hp]; [reflexivity|]. exfalso. apply Hq. rewrite E. now apply in_map.
+  - destruct Hp as [->|Hp]; [rewrite bytes_eqb_refl in E; discriminate | now apply IH].
+Qed.
+
+Lemma pending_none pw bk : pending_of pw bk = None -> forall p, In p pw -> r_key p <> bk.
+Proof.
+  unfold pending_of. intros H p Hp E. pose proof (find_none _ _ H p Hp) as Hn. cbn in Hn. rewrite E, bytes_eqb_refl in Hn. discriminate.
+Qed.
+
+Theorem txn_scan_fwd_pending now s ws pw readTs o :
+  iter_inv s -> content_ok s ws -> seq_functional ws -> (forall w, In w (ws ++ pw) -> wf_key w = true) ->
+  pw <> [] -> NoDup (map r_key pw) -> (forall p, In p pw -> r_ver p = readTs) ->
+  o_rev o = false -> o_all o = false ->
+  map item_sitem (txn_list current now s readTs pw o ARewind) = spec_scan now ws pw readTs (sopts_of o None).
+Proof.
+  intros Hi Hc Hf Hw Hne Hnd Hpv Hr Ha.
+  assert (Hmatch : forall X : list rec, match pw with [] => [] | _ :: _ => [X] end = [X])
+    by (intro X; destruct pw; [contradiction | reflexivity]).
+  assert (Hw1 : forall w, In w ws -> wf_key w = true) by (intros w Hw'; apply Hw, in_or_app; now left).
+  destruct (rev_T_facts s ws readTs Hi Hc Hw1) as (HsT & HwT & HvT).
+  set (T := filter (visible readTs) (fstream s)) in *.
+  assert (Hf' : seq_functional (all_recs (tiers_of s))).
+  { intros a b Ha' Hb'. apply Hf; now apply (proj1 Hc). }
+  assert (Hlat : forall k, latest_at ws k readTs = src_search k readTs T).
+  { intro k. unfold T. rewrite <- (txn_stream_fwd s readTs Hi).
+    (* via the seek on the full stream: versions above readTs are never candidates *)
+    rewrite (txn_stream_fwd s readTs Hi). fold T.
+    assert (H1 : latest_at ws k readTs = src_search k readTs (fstream s)).
+    { rewrite (fstream_get s k readTs Hi Hf'). symmetry. apply get_latest; auto; apply Hi. }
+    rewrite H1. pose proof (fstream_sorted s Hi) as HsS.
+    destruct (src_search k readTs (fstream s)) as [x|] eqn:E.
+    - symmetry. apply (src_search_char _ _ _ _ HsT). apply (src_search_char _ _ _ _ HsS) in E as (Hin & [Hk Hv] & Hmax).
+      split; [unfold T; apply filter_In; split; [exact Hin | unfold visible; now apply N.leb_le]|].
+      split; [split; auto|]. intros y Hy Hc'. apply Hmax; [|exact Hc']. unfold T in Hy. now apply filter_In in Hy as [Hy _].
+    - symmetry. destruct (src_search k readTs T) as [y|] eqn:E2; [|reflexivity]. exfalso.
+      apply (src_search_char _ _ _ _ HsT) in E2 as (Hin & Hc' & _). unfold T in Hin. apply filter_In in Hin as [Hin _].
+      exact (src_search_none _ _ _ HsS E y Hin Hc'). }
+  set (P := isort pleb pw).
+  assert (HsP : sorted P) by now apply isort_sorted.
+  assert (HPin : forall x, In x P <-> In x pw) by (intro x; apply isort_in).
+  (* the stream *)
+  assert (Hsrc : Forall sorted (lsm_sources current s)) by (apply lsm_sources_sorted, Hi).
+  set (Fs := map (fun l => filter (visible readTs) (lsm_pos false PRewind l)) (lsm_sources current s)).
+  assert (HFs : Forall sorted Fs).
+  { apply Forall_forall. intros l Hl. apply in_map_iff in Hl as (a & <- & Ha'). cbn [lsm_pos].
+    apply sorted_filter. rewrite Forall_forall in Hsrc. auto. }
+  assert (HTF : T = mtree rcmp Fs) by (unfold T; now rewrite <- (txn_stream_fwd s readTs Hi)).
+  destruct (mtree_owns Fs HFs) as [_ HmT]. rewrite <- HTF in HmT.
+  set (T' := mtree rcmp (P :: Fs)).
+  destruct (mtree_owns (P :: Fs) (Forall_cons _ HsP HFs)) as [HsT' HmT'].
+  assert (HT'in : forall x, In x T' <-> In x pw \/ (In x T /\ find (ik_eqb x) P = None)).
+  { intro x. unfold T'. rewrite HmT'. cbn [owner]. destruct (find (ik_eqb x) P) as [y|] eqn:E.
+    - apply find_some in E as [Hy He]. split.
+      + intro H. injection H as ->. left. now apply HPin.
+      + intros [Hx|[_ H]]; [|discriminate]. apply HPin in Hx. f_equal. apply ik_eqb_spec in He as [K V].
+        now apply (sorted_unique P).
+    - rewrite <- HmT. split; [intro H; right; now split|]. intros [Hx|[Hx _]]; [|exact Hx].
+      apply HPin in Hx. pose proof (find_none _ _ E x Hx) as Hn. rewrite ik_eqb_refl in Hn. discriminate. }
+  assert (Hstream : txn_stream current s false readTs pw PRewind = T').
+  { unfold txn_stream. rewrite Hmatch. cbn [dcmp app]. unfold T', pend_pos. rewrite pend_sorted_eq. reflexivity. }
+  assert (HvT' : Forall (fun x => r_ver x <= readTs) T').
+  { apply Forall_forall. intros x Hx. apply HT'in in Hx as [Hx|[Hx _]]; [rewrite (Hpv x Hx); lia|].
+    rewrite Forall_forall in HvT. auto. }
+  assert (HsubT' : forall x, In x T' -> In x (ws ++ pw)).
+  { intros x Hx. apply in_or_app. apply HT'in in Hx as [Hx|[Hx _]]; [now right | left].
+    unfold T in Hx. apply filter_In in Hx as [Hx _]. apply (proj1 Hc). now apply fstream_sound. }
+  assert (HwT' : Forall (fun x => wf_key x = true) T').
+  { apply Forall_forall. intros x Hx. now apply Hw, HsubT'. }
+  assert (Hview : forall bk, view ws pw readTs bk = src_search bk readTs T').
+  { intro bk. unfold view, view_at. rewrite N.eqb_refl. symmetry. destruct (pending_of pw bk) as [p|] eqn:Ep.
+    - unfold pending_of in Ep. apply find_some in Ep as [Hp Hk]. apply bytes_eqb_eq in Hk.
+      apply (src_search_char _ _ _ _ HsT'). split; [apply HT'in; now left|]. split; [split; [exact Hk | rewrite (Hpv p Hp); lia]|].
+      intros y Hy _. rewrite (Hpv p Hp). rewrite Forall_forall in HvT'. auto.
+    - rewrite Hlat. pose proof (pending_none pw bk Ep) as Hnone.
+      destruct (src_search bk readTs T) as [x|] eqn:E.
+      + apply (src_search_char _ _ _ _ HsT'). apply (src_search_char _ _ _ _ HsT) in E as (Hin & [Hk Hv] & Hmax).
+        split.
+        * apply HT'in. right. split; [exact Hin|]. destruct (find (ik_eqb x) P) as [y|] eqn:Ef; [|reflexivity].
+          apply find_some in Ef as [Hy He]. apply HPin in Hy. apply ik_eqb_spec in He as [K _]. exfalso.
+          apply (Hnone y Hy). congruence.
+        * split; [split; auto|]. intros y Hy [Hyk Hyv]. apply HT'in in Hy as [Hy|[Hy _]]; [exfalso; now apply (Hnone y Hy)|].
+          apply Hmax; [exact Hy | split; auto].
+      + destruct (src_search bk readTs T') as [y|] eqn:E2; [|reflexivity]. exfalso.
+        apply (src_search_char _ _ _ _ HsT') in E2 as (Hin & [Hk Hv] & _).
+        apply HT'in in Hin as [Hin|[Hin _]]; [now apply (Hnone y Hin)|].
+        exact (src_search_none _ _ _ HsT E y Hin (conj Hk Hv)). }
+  assert (Hlist : txn_list current now s readTs pw o ARewind = map mk_item (pick (good now o) None T')).
+  { unfold txn_list. rewrite Hr, collect_trun, Hstream. apply trun_pick; auto. reflexivity. }
+  rewrite Hlist, (pick_chosen_view now ws pw readTs o T' Hr HsT' HwT' HvT' Hview HsubT'),
+    (spec_scan_chosen_view now ws pw readTs (sopts_of o None) Hr Ha), !map_map.
+  apply map_ext. intro x. unfold mk_item, item_sitem, to_item. destruct (split_base (r_key x)); reflexivity.
+Qed.
+
+(** * Reverse Seek (with its fallback) *)
+
+(** the records a reverse Seek to (k, version 0) leaves: those at or below it *)
+Lemma before_rev_mono k v x y : before true k v x = false -> glt rcmp' x y -> before true k v y = false.
+Proof.
+  unfold before, glt, rcmp'. intros Hx Hlt. fold (rlt y x) in Hlt.
+  destruct (kcmp (r_key x) (r_ver x) k v) eqn:E; try discriminate.
+  - apply kcmp_eq in E as [<- <-]. unfold rlt, rcmp in Hlt. now rewrite Hlt.
+  - unfold rlt, rcmp in Hlt. now rewrite (kcmp_lt_trans _ _ _ _ _ _ Hlt E).
+Qed.
+
+Lemma drop_while_before_rev k v l :
+  rsorted l -> drop_while (before true k v) l = filter (fun x => negb (before true k v x)) l.
+Proof.
+  induction l as [|x l IH]; intro Hs; [reflexivity|]. cbn [drop_while filter].
+  pose proof (gsorted_cons_inv rcmp' _ _ Hs) as [Hsl Hf]. destruct (before true k v x) eqn:E; cbn [negb]; [now apply IH|].
+  f_equal. symmetry. apply filter_all. intros y Hy. rewrite Forall_forall in Hf.
+  now rewrite (before_rev_mono k v x y E (Hf y Hy)).
+Qed.
+
+Lemma before_rev_ik k v x y : ik_eqb x y = true -> negb (before true k v y) = negb (before true k v x).
+Proof. intro H. apply ik_eqb_spec in H as [Hk Hv]. unfold before. now rewrite Hk, Hv. Qed.
+
+Lemma txn_stream_rseek s readTs k v :
+  iter_inv s ->
+  txn_stream current s true readTs [] (PSeek k v)
+  = filter (fun x => negb (before true k v x)) (rev (filter (visible readTs) (fstream s))).
+Proof.
+  intro Hi. rewrite <- (txn_stream_rev s readTs Hi). unfold txn_stream. cbn [app dcmp lsm_pos].
+  assert (Hsrc : Forall sorted (lsm_sources current s)) by (apply lsm_sources_sorted, Hi).
+  set (srcs := lsm_sources current s) in *. set (nb := fun x => negb (before true k v x)).
+  change (fun a b : rec => rcmp b a) with rcmp'.
+  assert (E : map (fun l => filter (visible readTs) (drop_while (before true k v) (rev l))) srcs
+              = map (filter nb) (map (fun l => filter (visible readTs) (rev l)) srcs)).
+  { rewrite map_map. apply map_ext_in. intros a Ha. rewrite Forall_forall in Hsrc.
+    rewrite (drop_while_before_rev k v (rev a) (rev_rsorted a (Hsrc a Ha))).
+    fold nb. clear. induction (rev a) as [|z l IH]; [reflexivity|]. cbn [filter].
+    destruct (nb z) eqn:E1, (visible readTs z) eqn:E2; cbn [filter]; rewrite ?E1, ?E2, IH; reflexivity. }
+  rewrite E.
+  set (Rs := map (fun l => filter (visible readTs) (rev l)) srcs).
+  assert (HRs : Forall rsorted Rs).
+  { apply Forall_forall. intros l Hl. apply in_map_iff in Hl as (a & <- & Ha).
+    apply rsorted_filter, rev_rsorted. rewrite Forall_forall in Hsrc. auto. }
+  assert (HRs' : Forall rsorted (map (filter nb) Rs)).
+  { apply Forall_forall. intros l Hl. apply in_map_iff in Hl as (a & <- & Ha). apply rsorted_filter.
+    rewrite Forall_forall in HRs. auto. }
+  destruct (gmtree_owns rcmp' rcmp'_eq rcmp'_anti rcmp'_trans _ HRs') as [Hs1 Hm1].
+  destruct (gmtree_owns rcmp' rcmp'_eq rcmp'_anti rcmp'_trans _ HRs) as [Hs2 Hm2].
+  apply (ssorted_ext (glt rcmp')); [apply glt_irrefl; exact rcmp'_eq | exact rcmp'_trans | exact Hs1 | apply rsorted_filter; exact Hs2 |].
+  intro x. rewrite Hm1, filter_In, Hm2, (owner_filter x nb _ (before_rev_ik k v x)).
+  unfold nb. destruct (negb (before true k v x)); split; try tauto; try discriminate. intros [_ H]. discriminate.
+Qed.
+
+(** [adv] and [collect] *)
+Lemma adv_some c now readTs o : forall l last it last' rest,
+  adv c now readTs o last l = (Some it, last', rest) ->
+  exists x, In x l /\ it = mk_item x /\ (length rest < length l)%nat.
+Proof.
+  induction l as [|x l IH]; intros last it last' rest H; [discriminate|].
+  assert (Hadv : adv c now readTs o last (x :: l) =
+            match judge c now readTs o last x with
+            | VSkip l0 => adv c now readTs o l0 l
+            | VStop => (None, last, l)
+            | VEmit => (Some (mk_item x), snd (split_base (r_key x)), l)
+            end) by reflexivity.
+  rewrite Hadv in H. destruct (judge c now readTs o last x) as [l0| |].
+  - destruct (IH _ _ _ _ H) as (y & Hy & E & Hl). exists y. split; [now right|]. split; [exact E | cbn [length]; lia].
+  - discriminate.
+  - injection H as <- <- <-. exists x. split; [now left|]. split; [reflexivity | cbn [length]; lia].
+Qed.
+
+Lemma collect_step c now readTs o last l :
+  collect c now readTs o last l =
+  match adv c now readTs o last l with
+  | (Some it, last', rest) => it :: collect c now readTs o last' rest
+  | (None, _, _) => []
+  end.
+Proof.
+  unfold collect at 1. cbn [collect_fuel]. destruct (adv c now readTs o last l) as [[[it|] last'] rest] eqn:E; [|reflexivity].
+  f_equal. destruct (adv_some _ _ _ _ _ _ _ _ _ E) as (_ & _ & _ & Hl).
+  rewrite collect_fuel_trun; [|lia]. now rewrite collect_trun.
+Qed.
+
+Lemma adv_none_last c now readTs o : o_rev o = true -> forall l last last' rest,
+  adv c now readTs o last l = (None, last', rest) -> last' = last.
+Proof.
+  intro Hr. induction l as [|x l IH]; intros last last' rest H; [now injection H as <- _|].
+  assert (Hadv : adv c now readTs o last (x :: l) =
+            match judge c now readTs o last x with
+            | VSkip l0 => adv c now readTs o l0 l
+            | VStop => (None, last, l)
+            | VEmit => (Some (mk_item x), snd (split_base (r_key x)), l)
+            end) by reflexivity.
+  rewrite Hadv in H. destruct (judge c now readTs o last x) as [l0| |] eqn:Ej.
+  - assert (l0 = last).
+    { unfold judge in Ej. destruct (split_base (r_key x)) as [cf u]. rewrite Hr in Ej.
+      repeat match type of Ej with
+             | (if ?b then _ else _) = _ => destruct b
+             end; try discriminate; try (now injection Ej as <-).
+      rewrite !andb_false_r in Ej. now injection Ej as <-. }
+    subst l0. now apply IH in H.
+  - now injection H as <- _.
+  - discriminate.
+Qed.
+
+Lemma skip_above_collect c now readTs o key : forall fuel l last,
+  (length l < fuel)%nat ->
+  match skip_above c now readTs o key fuel last l with
+  | (Some it, last', rest) => it :: collect c now readTs o last' rest
+  | (None, _, _) => []
+  end = drop_while (fun it => bytes_ltb key (i_key it)) (collect c now readTs o last l).
+Proof.
+  induction fuel as [|f IH]; intros l last Hl; [lia|]. cbn [skip_above]. rewrite (collect_step c now readTs o last l).
+  destruct (adv c now readTs o last l) as [[[it|] last'] rest] eqn:E; [|reflexivity]. cbn [drop_while].
+  destruct (bytes_ltb key (i_key it)); [|reflexivity].
+  apply IH. destruct (adv_some _ _ _ _ _ _ _ _ _ E) as (_ & _ & _ & Hl'). lia.
+Qed.
+
+Lemma drop_while_app_all {A} (f : A -> bool) l1 l2 :
+  (forall x, In x l1 -> f x = true) -> (forall x, In x l2 -> f x = false) -> drop_while f (l1 ++ l2) = l2.
+Proof.
+  intros H1 H2. induction l1 as [|x l1 IH]; cbn [app drop_while].
+  - destruct l2 as [|y l2]; [reflexivity|]. cbn [drop_while]. now rewrite (H2 y (or_introl eq_refl)).
+  - rewrite (H1 x (or_introl eq_refl)). apply IH. intros y Hy. apply H1. now right.
+Qed.
+
+(** splitting a descending list at a key *)
+Lemma rsorted_split nb l :
+  rsorted l -> (forall x y, nb x = true -> glt rcmp' x y -> nb y = true) ->
+  l = filter (fun x => negb (nb x)) l ++ filter nb l.
+Proof.
+  intros Hs Hmono. induction l as [|x l IH]; [reflexivity|]. pose proof (gsorted_cons_inv rcmp' _ _ Hs) as [Hsl Hf].
+  cbn [filter]. destruct (nb x) eqn:E; cbn [negb app].
+  - rewrite (filter_nil (fun y => negb (nb y)) l).
+    + cbn [app]. f_equal. symmetry. apply filter_all. intros y Hy. rewrite Forall_forall in Hf. eapply Hmono; eauto.
+    + intros y Hy. rewrite Forall_forall in Hf. now rewrite (Hmono x y E (Hf y Hy)).
+  - f_equal. now apply IH.
+Qed.
+
+Definition le_key (key : bytes) (x : rec) : bool := negb (before true (enc_cf_key 0 key) 0 x).
+
+Lemma le_key_spec key x u :
+  r_key x = enc_cf_key 0 u -> le_key key x = bytes_leb u key.
+Proof.
+  intro Hk. unfold le_key, before, kcmp. rewrite Hk, enc0_cmp. unfold bytes_leb.
+  destruct (bytes_cmp u key); cbn [negb]; try reflexivity. destruct (r_ver x); reflexivity.
+Qed.
+
+Theorem txn_list_rseek now s ws readTs o key :
+  iter_inv s -> content_ok s ws -> (forall w, In w ws -> wf_key w = true) ->
+  o_rev o = true -> key <> [] ->
+  (o_all o = true \/ no_repeat (filter (visible readTs) (fstream s)) = true) ->
+  txn_list current now s readTs [] o (ASeek key) =
+    if nonempty (o_lower o) && bytes_ltb key (o_lower o) then []
+    else let key' := if nonempty (o_upper o) && bytes_leb (o_upper o) key then o_upper o else key in
+         map mk_item (filter (good now o) (filter (le_key key') (rev (filter (visible readTs) (fstream s))))).
+Proof.
+  intros Hi Hc Hw Hr Hkey Hcase.
+  destruct (rev_T_facts s ws readTs Hi Hc Hw) as (HsT & HwT & HvT).
+  set (T := filter (visible readTs) (fstream s)) in *.
+  destruct key as [|b0 key0]; [contradiction|].
+  unfold txn_list. rewrite Hr. cbn [negb]. set (key := b0 :: key0) in *.
+  destruct (nonempty (o_lower o) && bytes_ltb key (o_lower o)); [reflexivity|].
+  set (key' := if nonempty (o_upper o) && bytes_leb (o_upper o) key then o_upper o else key). cbv zeta.
+  unfold txn_base. rewrite (txn_stream_rseek s readTs _ _ Hi), (txn_stream_rev s readTs Hi). fold T.
+  change (fun x => negb (before true (enc_cf_key cf_default key') 0 x)) with (le_key key').
+  set (R := rev T). set (R' := filter (le_key key') R).
+  assert (HsR : rsorted R) by now apply rev_rsorted.
+  assert (HsR' : rsorted R') by now apply rsorted_filter.
+  assert (HwR : Forall (fun x => wf_key x = true) R) by now apply Forall_rev.
+  assert (HvR : Forall (fun x => r_ver x <= readTs) R) by now apply Forall_rev.
+  assert (HkR : o_all o = true \/ kdesc R).
+  { destruct Hcase as [H|H]; [now left | right]. apply kdesc_rev. now apply no_repeat_kasc. }
+  assert (Hsub : forall x, In x R' -> In x R) by (intros x Hx; now apply filter_In in Hx).
+  assert (HkR' : o_all o = true \/ kdesc R').
+  { destruct HkR as [H|H]; [now left | right]. now apply ssorted_filter. }
+  assert (Hrun' : forall last, linv o last R' -> trun current now readTs o last R' = map mk_item (filter (good now o) R')).
+  { intros last Hl. apply trun_rev; auto.
+    - apply Forall_forall. intros x Hx. rewrite Forall_forall in HwR. auto.
+    - apply Forall_forall. intros x Hx. rewrite Forall_forall in HvR. auto. }
+  assert (Hrun : trun current now readTs o [] R = map mk_item (filter (good now o) R)).
+  { apply trun_rev; auto. right. now left. }
+  (* the fallback, started with an empty lastKey, yields the same listing *)
+  assert (Hfb : match skip_above current now readTs o key' (S (length R)) [] R with
+                | (Some it, last', rest) => it :: collect current now readTs o last' rest
+                | (None, _, _) => []
+                end = map mk_item (filter (good now o) R')).
+  { rewrite skip_above_collect; [|lia]. rewrite collect_trun, Hrun.
+    rewrite (rsorted_split (le_key key') R HsR) at 1.
+    2:{ intros x y Hx Hlt. unfold le_key in *. apply negb_true_iff. apply negb_true_iff in Hx. eapply before_rev_mono; eauto. }
+    rewrite filter_app, map_app. fold R'. apply drop_while_app_all.
+    - intros it Hit. apply in_map_iff in Hit as (x & <- & Hx). apply filter_In in Hx as [Hx Hg]. apply filter_In in Hx as [Hx Hle].
+      rewrite Forall_forall in HwR. destruct (wf_key_enc x (HwR x Hx)) as (cf & u & Hsp & Hk & _ & _).
+      unfold good, keyfilt in Hg. rewrite Hsp in Hg. destruct (cf =? cf_default) eqn:Ecf; [|discriminate].
+      apply N.eqb_eq in Ecf. subst cf. unfold mk_item. rewrite Hsp. cbn [i_key].
+      rewrite (le_key_spec key' x u Hk) in Hle. apply negb_true_iff in Hle. rewrite bytes_leb_ltb in Hle.
+      now apply negb_false_iff in Hle.
+    - intros it Hit. apply in_map_iff in Hit as (x & <- & Hx). apply filter_In in Hx as [Hx Hg]. apply filter_In in Hx as [Hx Hle].
+      rewrite Forall_forall in HwR. destruct (wf_key_enc x (HwR x Hx)) as (cf & u & Hsp & Hk & _ & _).
+      unfold good, keyfilt in Hg. rewrite Hsp in Hg. destruct (cf =? cf_default) eqn:Ecf; [|discriminate].
+      apply N.eqb_eq in Ecf. subst cf. unfold mk_item. rewrite Hsp. cbn [i_key].
+      rewrite (le_key_spec key' x u Hk) in Hle. rewrite bytes_leb_ltb in Hle. now apply negb_true_iff in Hle. }
+  destruct (adv current now readTs o [] R') as [[[it|] last'] rest] eqn:E.
+  - destruct (adv_some _ _ _ _ _ _ _ _ _ E) as (x & Hx & -> & _).
+    assert (Hle : bytes_ltb key' (i_key (mk_item x)) = false).
+    { pose proof (Hsub x Hx) as HxR. apply filter_In in Hx as [_ Hle].
+      rewrite Forall_forall in HwR. destruct (wf_key_enc x (HwR x HxR)) as (cf & u & Hsp & Hk & _ & _).
+      (* the emitted record is in the default column family *)
+      assert (cf = cf_default).
+      { assert (Hj : judge current now readTs o [] x <> VSkip [] -> True) by auto.
+        clear Hj. revert E. clear - Hsp Hr. revert x Hsp. generalize (@nil byte) as last0.
+        induction R' as [|z l IH]; intros last0 x Hsp E; [discriminate|].
+        assert (Hadv : adv current now readTs o last0 (z :: l) =
+            match judge current now readTs o last0 z with
+            | VSkip l0 => adv current now readTs o l0 l
+            | VStop => (None, last0, l)
+            | VEmit => (Some (mk_item z), snd (split_base (r_key z)), l)
+            end) by reflexivity.
+        rewrite Hadv in E. destruct (judge current now readTs o last0 z) as [l0| |] eqn:Ej.
+        - eapply IH; eauto.
+        - discriminate.
+        - injection E as E1 _ _. unfold judge in Ej. unfold mk_item in E1.
+          destruct (split_base (r_key z)) as [cfz uz] eqn:Ez. rewrite Hsp in E1. injection E1 as -> -> _ _.
+          cbn [current fix_txn_cf andb] in Ej. destruct (cf =? cf_default) eqn:Ec; [now apply N.eqb_eq in Ec | discriminate]. }
+      subst cf. unfold mk_item. rewrite Hsp. cbn [i_key].
+      rewrite (le_key_spec key' x u Hk) in Hle. rewrite bytes_leb_ltb in Hle. now apply negb_true_iff in Hle. }
+    rewrite Hle. rewrite <- (Hrun' []); [|right; now left]. rewrite <- collect_trun, (collect_step current now readTs o [] R'), E. reflexivity.
+  - rewrite (adv_none_last current now readTs o Hr _ _ _ _ E). exact Hfb.
+Qed.
+
+(** the smallest key above [k] is [k ++ [0]] *)
+Lemma ltb_snoc0 u : forall k, bytes_ltb u (k ++ [x00]) = bytes_leb u k.
+Proof.
+  unfold bytes_ltb, bytes_leb. induction u as [|a u IH]; intros [|b k]; cbn [app bytes_cmp]; try reflexivity.
+  - change (b2n x00) with 0. destruct (N.compare (b2n a) 0) eqn:E; try reflexivity.
+    + destruct u; reflexivity.
+    + destruct (b2n a); discriminate E.
+  - destruct (N.compare (b2n a) (b2n b)); try reflexivity. apply IH.
+Qed.
+
+Definition with_upper (o : topts) (hi : bytes) : topts :=
+  {| o_rev := o_rev o; o_all := o_all o; o_keyonly := o_keyonly o; o_pik := o_pik o; o_prefix := o_prefix o;
+     o_since := o_since o; o_lower := o_lower o; o_upper := hi |}.
+
+Lemma good_le_key now o key x u :
+  r_key x = enc_cf_key 0 u -> key <> [] ->
+  (o_upper o = [] \/ bytes_ltb key (o_upper o) = true) ->
+  good now (with_upper o (key ++ [x00])) x = le_key key x && good now o x.
+Proof.
+  intros Hk Hne Hup. rewrite (le_key_spec key x u Hk). unfold good, keyfilt, since_ok. rewrite Hk, split_base_enc0.
+  cbn [with_upper o_lower o_upper o_prefix o_pik o_since].
+  assert (nonempty (key ++ [x00]) = true) as -> by (destruct key; reflexivity). cbn [andb].
+  rewrite (bytes_leb_ltb (key ++ [x00]) u), ltb_snoc0, negb_involutive.
+  destruct (bytes_leb u key) eqn:E.
+  - assert (nonempty (o_upper o) && bytes_leb (o_upper o) u = false) as ->.
+    { destruct Hup as [->|Hup]; [reflexivity|]. rewrite bytes_leb_ltb.
+      rewrite (bytes_leb_ltb_trans _ _ _ E Hup). cbn [negb]. apply andb_false_r. }
+    cbn [negb andb]. reflexivity.
+  - cbn [andb]. now rewrite !andb_false_r.
+Qed.
+
+Lemma rseek_spec now s ws readTs o key :
+  iter_inv s -> content_ok s ws -> (forall w, In w ws -> wf_key w = true) ->
+  o_rev o = true -> key <> [] ->
+  (o_all o = true \/ no_repeat (filter (visible readTs) (fstream s)) = true) ->
+  (forall o2, o_rev o2 = true -> o_all o2 = o_all o ->
+     map item_sitem (map mk_item (filter (good now o2) (rev (filter (visible readTs) (fstream s)))))
+     = spec_scan now ws [] readTs (sopts_of o2 None)) ->
+  map item_sitem (txn_list current now s readTs [] o (ASeek key)) = spec_scan now ws [] readTs (sopts_of o (Some key)).
+Proof.
+  intros Hi Hc Hw Hr Hkey Hcase Hrw.
+  rewrite (txn_list_rseek now s ws readTs o key Hi Hc Hw Hr Hkey Hcase).
+  destruct (rev_T_facts s ws readTs Hi Hc Hw) as (HsT & HwT & HvT).
+  set (R := rev (filter (visible readTs) (fstream s))) in *.
+  assert (HwR : forall x, In x R -> wf_key x = true).
+  { intros x Hx. unfold R in Hx. apply in_rev in Hx. rewrite Forall_forall in HwT. auto. }
+  destruct (nonempty (o_lower o) && bytes_ltb key (o_lower o)) eqn:Elo.
+  { (* target below the lower bound *)
+    cbn [map]. symmetry. apply spec_scan_none. intro u. unfold key_ok. cbn [sopts_of so_lower so_upper so_prefix so_pik so_target so_rev].
+    rewrite Hr. apply andb_true_iff in Elo as [Hne Hlt]. unfold nonemptyb. unfold nonempty in Hne. rewrite Hne. cbn [negb orb].
+    destruct (bytes_leb u key) eqn:E1; [|now rewrite andb_false_r].
+    assert (bytes_leb (o_lower o) u = false) as ->.
+    { rewrite bytes_leb_ltb. now rewrite (bytes_leb_ltb_trans _ _ _ E1 Hlt). }
+    reflexivity. }
+  cbv zeta. destruct (nonempty (o_upper o) && bytes_leb (o_upper o) key) eqn:Eup.
+  - (* clamped to the (exclusive) upper bound: the bound alone already excludes everything above *)
+    apply andb_true_iff in Eup as [Hne Hle].
+    assert (Hf : filter (good now o) (filter (le_key (o_upper o)) R) = filter (good now o) R).
+    { clear - HwR Hne. induction R as [|x R IH]; [reflexivity|]. cbn [filter].
+      assert (IH' : filter (good now o) (filter (le_key (o_upper o)) R) = filter (good now o) R)
+        by (apply IH; intros y Hy; apply HwR; now right).
+      destruct (le_key (o_upper o) x) eqn:El; cbn [filter]; [now rewrite IH'|]. rewrite IH'.
+      destruct (wf_key_enc x (HwR x (or_introl eq_refl))) as (cf & u & Hsp & Hk & _ & _).
+      unfold good, keyfilt. rewrite Hsp. destruct (cf =? cf_default) eqn:Ec; [|reflexivity].
+      apply N.eqb_eq in Ec. subst cf. rewrite (le_key_spec _ x u Hk) in El. rewrite bytes_leb_ltb in El.
+      apply negb_false_iff in El. rewrite Hne.
+      assert (bytes_leb (o_upper o) u = true) as ->.
+      { rewrite bytes_leb_ltb. apply negb_true_iff. destruct (bytes_ltb u (o_upper o)) eqn:E; [|reflexivity].
+        pose proof (bytes_ltb_trans _ _ _ E El) as H. now rewrite bytes_ltb_irrefl in H. }
+      cbn [negb andb]. now rewrite !andb_false_r. }
+    rewrite Hf, (Hrw o Hr eq_refl). apply spec_scan_ext; try reflexivity.
+    intro u. unfold key_ok. cbn [sopts_of so_lower so_upper so_prefix so_pik so_target so_rev]. rewrite Hr, andb_true_r.
+    assert (Hm : (negb (nonemptyb (o_upper o)) || bytes_ltb u (o_upper o))
+                 = (negb (nonemptyb (o_upper o)) || bytes_ltb u (o_upper o)) && bytes_leb u key).
+    { unfold nonemptyb. unfold nonempty in Hne. rewrite Hne. cbn [negb orb].
+      destruct (bytes_ltb u (o_upper o)) eqn:E; [|reflexivity].
+      now rewrite (ltb_leb_trans' _ _ _ E Hle). }
+    rewrite Hm at 1.
+    generalize (negb (nonemptyb (o_lower o)) || bytes_leb (o_lower o) u), (bytes_leb u key),
+      (negb (nonemptyb (o_upper o)) || bytes_ltb u (o_upper o)),
+      (negb (nonemptyb (o_prefix o)) || (if o_pik o then bytes_eqb u (o_prefix o) else is_prefix (o_prefix o) u)).
+    intros [] [] [] []; reflexivity.
+  - set (o2 := with_upper o (key ++ [x00])).
+    assert (Hup : o_upper o = [] \/ bytes_ltb key (o_upper o) = true).
+    { destruct (o_upper o) as [|h0 hi0] eqn:Eu; [now left | right]. cbn [nonempty andb] in Eup.
+      rewrite bytes_leb_ltb in Eup. now apply negb_false_iff in Eup. }
+    assert (Hf : filter (good now o) (filter (le_key key) R) = filter (good now o2) R).
+    { clear - HwR Hkey Hup. induction R as [|x R IH]; [reflexivity|]. cbn [filter].
+      assert (IH' : filter (good now o) (filter (le_key key) R) = filter (good now o2) R)
+        by (apply IH; intros y Hy; apply HwR; now right).
+      destruct (wf_key_enc x (HwR x (or_introl eq_refl))) as (cf & u & Hsp & Hk & _ & _).
+      destruct (N.eq_dec cf cf_default) as [->|Hne].
+      + unfold o2. rewrite (good_le_key now o key x u Hk Hkey Hup).
+        destruct (le_key key x); cbn [filter andb]; [now rewrite IH' | exact IH'].
+      + assert (Hg : forall o', good now o' x = false).
+        { intro o'. unfold good, keyfilt. rewrite Hsp. apply N.eqb_neq in Hne. now rewrite Hne. }
+        rewrite (Hg o2). destruct (le_key key x); cbn [filter]; [rewrite (Hg o)|]; exact IH'. }
+    rewrite Hf, (Hrw o2 Hr eq_refl). apply spec_scan_ext; try reflexivity.
+    intro u. unfold key_ok. cbn [o2 with_upper sopts_of so_lower so_upper so_prefix so_pik so_target so_rev o_lower o_upper o_prefix o_pik o_rev].
+    rewrite Hr, andb_true_r.
+    assert (nonemptyb (key ++ [x00]) = true) as -> by (destruct key; reflexivity). cbn [negb orb]. rewrite ltb_snoc0.
+    assert (Hm : bytes_leb u key = (negb (nonemptyb (o_upper o)) || bytes_ltb u (o_upper o)) && bytes_leb u key).
+    { destruct (bytes_leb u key) eqn:E; [|now rewrite andb_false_r]. rewrite andb_true_r.
+      destruct Hup as [->|Hup]; [reflexivity|]. now rewrite (bytes_leb_ltb_trans _ _ _ E Hup), orb_true_r. }
+    rewrite Hm at 1.
+    generalize (negb (nonemptyb (o_lower o)) || bytes_leb (o_lower o) u), (bytes_leb u key),
+      (negb (nonemptyb (o_upper o)) || bytes_ltb u (o_upper o)),
+      (negb (nonemptyb (o_prefix o)) || (if o_pik o then bytes_eqb u (o_prefix o) else is_prefix (o_prefix o) u)).
+    intros [] [] [] []; reflexivity.
+Qed.
+
+Lemma rev_listing_all now s ws readTs o2 :
+  iter_inv s -> content_ok s ws -> seq_functional ws -> (forall w, In w ws -> wf_key w = true) ->
+  o_rev o2 = true -> o_all o2 = true ->
+  map item_sitem (map mk_item (filter (good now o2) (rev (filter (visible readTs) (fstream s)))))
+  = spec_scan now ws [] readTs (sopts_of o2 None).
+Proof.
+  intros Hi Hc Hf Hw Hr Ha. rewrite <- (txn_scan_rev_all now s ws readTs o2 Hi Hc Hf Hw Hr Ha). f_equal.
+  destruct (rev_T_facts s ws readTs Hi Hc Hw) as (HsT & HwT & HvT).
+  unfold txn_list. rewrite Hr, collect_trun, (txn_stream_rev s readTs Hi). symmetry.
+  apply trun_rev; auto; [now apply rev_rsorted | now apply Forall_rev | now apply Forall_rev | now left].
+Qed.
+
+Lemma rev_listing_partial now s ws readTs o2 :
+  iter_inv s -> content_ok s ws -> seq_functional ws -> (forall w, In w ws -> wf_key w = true) ->
+  no_repeat (filter (visible readTs) (fstream s)) = true ->
+  o_rev o2 = true -> o_all o2 = false ->
+  map item_sitem (map mk_item (filter (good now o2) (rev (filter (visible readTs) (fstream s)))))
+  = spec_scan now ws [] readTs (sopts_of o2 None).
+Proof.
+  intros Hi Hc Hf Hw Hn Hr Ha. rewrite <- (txn_scan_rev_partial now s ws readTs o2 Hi Hc Hf Hw Hn Hr Ha). f_equal.
+  destruct (rev_T_facts s ws readTs Hi Hc Hw) as (HsT & HwT & HvT).
+  unfold txn_list. rewrite Hr, collect_trun, (txn_stream_rev s readTs Hi). symmetry.
+  apply trun_rev; auto; [now apply rev_rsorted | right; apply kdesc_rev; now apply no_repeat_kasc
+                         | now apply Forall_rev | now apply Forall_rev | right; now left].
+Qed.
+
+Theorem txn_scan_rev_seek_all now s ws readTs o key :
+  iter_inv s -> content_ok s ws -> seq_functional ws -> (forall w, In w ws -> wf_key w = true) ->
+  o_rev o = true -> o_all o = true -> key <> [] ->
+  map item_sitem (txn_list current now s readTs [] o (ASeek key)) = spec_scan now ws [] readTs (sopts_of o (Some key)).
+Proof.
+  intros Hi Hc Hf Hw Hr Ha Hkey. apply rseek_spec; auto.
+  intros o2 Hr2 Ha2. apply rev_listing_all; auto. congruence.
+Qed.
+
+Theorem txn_scan_rev_seek_partial now s ws readTs o key :
+  iter_inv s -> content_ok s ws -> seq_functional ws -> (forall w, In w ws -> wf_key w = true) ->
+  no_repeat (filter (visible readTs) (fstream s)) = true ->
+  o_rev o = true -> o_all o = false -> key <> [] ->
+  map item_sitem (txn_list current now s readTs [] o (ASeek key)) = spec_scan now ws [] readTs (sopts_of o (Some key)).
+Proof.
+  intros Hi Hc Hf Hw Hn Hr Ha Hkey. apply rseek_spec; auto.
+  intros o2 Hr2 Ha2. apply rev_listing_partial; auto. congruence.
+Qed.
+
 (** * Witnesses *)
 From Coq Require Import String.
 Definition mkr (k : string) (ver : N) (v : string) (meta seq : N) : rec :=
@@ -2227,3 +2799,19 @@ Lemma g1_refuted :
   tier_inv_b s_g1 = true /\ txn_get 100 s_g1 1 [] (sbase [x61]) = None /\ spec_get 100 w_g1 [] 1 [x61] = Some [] /\
   map item_sitem (txn_list current 100 s_g1 1 [] (plain_opts false false) ARewind) = [ {| s_key := [x61]; s_ver := 1; s_val := [] |} ].
 Proof. vm_compute. auto. Qed.
+
+(** pending writes on the example state: ab is overwritten, the deleted b is written again *)
+Definition pw_ex : list rec := [mkr "b" 3 "q" 0 0; mkr "ab" 3 "p" 0 0].
+Lemma ex_pending :
+  pw_ex <> [] /\ NoDup (map r_key pw_ex) /\ (forall p, In p pw_ex -> r_ver p = 3) /\
+  (forall w, In w (w_ex ++ pw_ex) -> wf_key w = true) /\
+  map item_sitem (txn_list current 100 s_ex 3 pw_ex (plain_opts false false) ARewind)
+  = [ {| s_key := of_string "a"; s_ver := 3; s_val := of_string "y" |};
+      {| s_key := of_string "ab"; s_ver := 3; s_val := of_string "p" |};
+      {| s_key := of_string "b"; s_ver := 3; s_val := of_string "q" |} ].
+Proof.
+  split; [discriminate|]. split.
+  - constructor; [intros [H|[]]; vm_compute in H; discriminate|]. constructor; [intros []|constructor].
+  - split; [intros p [<-|[<-|[]]]; reflexivity|]. split; [|vm_compute; reflexivity].
+    intros w Hw. vm_compute in Hw. repeat (destruct Hw as [<-|Hw]; [reflexivity|]). contradiction.
+Qed.
